@@ -90,7 +90,8 @@ def bootstrap(fake_rpy2=False):
 def child_env(extra=None):
     """Environment for shard subprocesses."""
     env = dict(os.environ)
-    env["PYTHONHASHSEED"] = "0"
+    # str / bytes hashing (and with it the iteration order of sets and dicts of strings) varies with the run's seed
+    env["PYTHONHASHSEED"] = str(int(os.environ.get("VERIF_SEED", "0") or 0) % 4096)
     env["PYTHONDONTWRITEBYTECODE"] = "1"
     env["OMP_NUM_THREADS"] = "1"
     env["OPENBLAS_NUM_THREADS"] = "1"
